@@ -43,6 +43,10 @@ def reset(S):
 # ------------------------------------------------------------------------------------------------
 # sockets
 
+class Hang(BaseException):
+    """the thread would block forever in a socket call (no timeout set on that socket)"""
+
+
 class FakeSock:
     family = socket.AF_INET
 
@@ -93,6 +97,11 @@ class FakeSock:
                     return b""
                 if self.at_end == "timeout":
                     raise socket.timeout("timed out")
+                if self.at_end == "stall":
+                    # the peer keeps the connection open and sends nothing more
+                    if self.timeout is None:
+                        raise Hang()
+                    raise socket.timeout("timed out")
                 raise ConnectionResetError(errno.ECONNRESET, "connection reset by peer")
             self.cur = self.inbox.pop(0)
             self.pos = 0
@@ -132,6 +141,53 @@ class FakeSock:
 
 def connection(sock):
     return socketutil.SocketConnection(sock)
+
+
+class LoopbackSock(FakeSock):
+    """client-side socket wired to a daemon: every request written to it is served synchronously by the real
+    Daemon.handleRequest on the server-side connection, and the reply bytes appear in this socket's inbox"""
+
+    def __init__(self, daemon, name="cli"):
+        FakeSock.__init__(self, name, ("127.0.0.1", 9999))
+        self.daemon = daemon
+        self.server_sock = FakeSock(name + "-srv", ("10.0.0.9", 999))
+        self.server_conn = socketutil.SocketConnection(self.server_sock)
+        self.server_alive = True
+        self.requests = 0
+
+    def sendall(self, data):
+        self._send_check()
+        self.sent.append(data)
+        self.requests += 1
+        if not self.server_alive:
+            return
+        self.server_sock.queue(data)
+        n = len(self.server_sock.sent)
+        try:
+            self.daemon.handleRequest(self.server_conn)
+        except Exception as x:
+            # the server layer would drop the connection
+            self.server_alive = False
+            self.server_conn.close()
+        for reply in self.server_sock.sent[n:]:
+            self.inbox.append(reply)
+
+    def send(self, data):
+        self.sendall(data)
+        return len(data)
+
+
+def make_proxy(daemon, objectId="obj", methods=(), oneway=(), attrs=()):
+    """a real client.Proxy connected through a LoopbackSock (no handshake: state constructed directly)"""
+    from Pyro5 import client
+    p = client.Proxy("PYRO:%s@localhost:9999" % objectId)
+    sock = LoopbackSock(daemon)
+    conn = socketutil.SocketConnection(sock, objectId)
+    p._pyroConnection = conn
+    p._pyroMethods = set(methods)
+    p._pyroOneway = set(oneway)
+    p._pyroAttrs = set(attrs)
+    return p, sock
 
 
 # ------------------------------------------------------------------------------------------------
